@@ -170,3 +170,20 @@ def rule_walk(G, start, n, a=7, b=3):
         out.append(NUC[j])
         v = G[v][j]
     return ''.join(out)
+
+
+def lcg_walk(G, start, n, seed):
+    """Deterministic non-periodic long walk: the live arc taken at each step comes from a fixed linear
+    congruential sequence (no random module, no state outside the call) - a fixed member of an
+    enumerated family indexed by seed, used where rule_walk's walks are too periodic."""
+    from . import oracle as O
+    v, out, x = start, [], (seed * 2654435761 + 12345) % (2 ** 31)
+    for i in range(n):
+        live = O.outs(G, v)
+        if not live:
+            break
+        x = (x * 1103515245 + 12345) % (2 ** 31)
+        j = live[(x >> 12) % len(live)]
+        out.append(NUC[j])
+        v = G[v][j]
+    return ''.join(out)
